@@ -97,9 +97,18 @@ def mutate_and_observe(d, gen, repo, tier, avoid):
     import glob
     feats = FEATS
     del feats[:]
-    for path in sorted(glob.glob(os.path.join(VERIF, "corpus", "c06", "*.sam"))) + sorted(glob.glob(os.path.join(VERIF, "corpus", "c01", "*.sam"))):
-        feats.append({"id": 100000 + len(feats), "origin": "corpus:" + os.path.relpath(path, VERIF), "entry": "Main",
-                      "sources": {"Main": open(path).read()}})
+    for path in sorted(glob.glob(os.path.join(VERIF, "corpus", "c06", "*"))) + sorted(glob.glob(os.path.join(VERIF, "corpus", "c01", "*.sam"))):
+        if os.path.isdir(path):      # a program of several modules: the module name is the relative path
+            srcs = {}
+            for root, _, files in os.walk(path):
+                for f in sorted(files):
+                    if f.endswith(".sam"):
+                        srcs[os.path.relpath(os.path.join(root, f), path)[:-4].replace(os.sep, ".")] = open(os.path.join(root, f)).read()
+        elif path.endswith(".sam"):
+            srcs = {"Main": open(path).read()}
+        else:
+            continue
+        feats.append({"id": 100000 + len(feats), "origin": "corpus:" + os.path.relpath(path, VERIF), "entry": "Main", "sources": srcs})
     if tier == "quick":
         del feats[12:]
     for i, c in enumerate([feats[j::4] for j in range(4)]):
